@@ -80,6 +80,11 @@ def generate(rng, tier):
             to = chosen[op_axes[0]][1]
         else:
             to = {a: chosen[a][1] for a in axes}
+            if rng.random() < 0.3:
+                # an entry may be None: that axis takes its default shift
+                for a in axes:
+                    if rng.random() < 0.5:
+                        to[a] = None
         size = 1
         for _, l in dims:
             size *= l
